@@ -8,8 +8,8 @@ Local Open Scope N_scope.
 
 (* features of the reference host: AVX512 + VAES/GFNI/SHANI (K1_FORMAT.md) *)
 Definition host_cpu : N := 0xc1fffff.
-Definition a_sse : arch_init := nth 0 arch_inits (mkarch "" 0 [] [] "").
-Definition a_avx512 : arch_init := nth 2 arch_inits (mkarch "" 0 [] [] "").
+Definition a_sse : arch_init := nth 0 arch_inits (mkarch "" 0 [] [] "" false).
+Definition a_avx512 : arch_init := nth 2 arch_inits (mkarch "" 0 [] [] "" false).
 
 Example ex_names : ai_name a_sse = "sse"%string /\ ai_name a_avx512 = "avx512"%string.
 Proof. vm_compute. auto. Qed.
